@@ -234,4 +234,34 @@ def sweep(ctx, n):
                               "replay": {"class": cls, "attribute": attr, "assigned": assigned.tolist(), "array_afterwards": buf.tolist(),
                                          "polarization": P.tolist(), "magnetization": Mg.tolist()}})
                 break
+    # ONE large call: a finely triangulated sphere (320 faces) asked at ~8000 / ~25000 observers inside its bounding box
+    # (observers x faces beyond a few million pairs — where an implementation would start to chunk its work): J is the
+    # polarization well inside the inscribed sphere, 0 outside the circumscribed one, and B = mu0 H + J at every row
+    import magpylib as magpy
+    from scipy.spatial import ConvexHull
+    nps = np.random.default_rng(rng.randrange(2**31))
+    ico = nps.normal(size=(162, 3))
+    ico /= np.linalg.norm(ico, axis=1)[:, None]
+    hull_ = ConvexHull(ico)
+    polb = nps.uniform(-1, 1, 3)
+    with warnings.catch_warnings():
+        warnings.simplefilter("ignore")
+        ball = magpy.magnet.TriangularMesh(vertices=ico, faces=hull_.simplices, polarization=polb, check_selfintersecting="ignore")
+        tri_ = ico[hull_.simplices]
+        nrm_ = np.cross(tri_[:, 1] - tri_[:, 0], tri_[:, 2] - tri_[:, 0])
+        r_in = float(np.min(np.abs(np.einsum("ij,ij->i", nrm_ / np.linalg.norm(nrm_, axis=1)[:, None], tri_[:, 0]))))  # inscribed radius of the hull
+        for nobs in ((8000,) if ctx.tier == "quick" else (8000, 25000)):
+            pts = nps.uniform(-0.99, 0.99, (nobs, 3))
+            rr = np.linalg.norm(pts, axis=1)
+            Jb, Bb, Hb = magpy.getJ(ball, pts), magpy.getB(ball, pts), magpy.getH(ball, pts)
+            done += nobs
+            per["large-call"] = per.get("large-call", 0) + nobs
+            surely_in, surely_out = rr < 0.98 * r_in, rr > 1.0 + 1e-9
+            bad_in = int(np.sum(~np.all(np.isclose(Jb[surely_in], polb, rtol=1e-12, atol=0), axis=1)))
+            bad_out = int(np.sum(np.any(Jb[surely_out] != 0, axis=1)))
+            cons = np.abs(Bb - (magpy.mu_0 * Hb + Jb)).max()
+            if bad_in or bad_out or not cons < 1e-9 * np.max(np.abs(polb)):
+                fails.append({"key": "j-indicator:TriangularMesh:large-call", "desc": f"a {len(hull_.simplices)}-face sphere mesh asked at {nobs} observers in one call: J differs from the polarization at "
+                              f"{bad_in} of {int(surely_in.sum())} observers well inside and is non-zero at {bad_out} of {int(surely_out.sum())} observers outside the circumscribed sphere; max |B - mu0 H - J| = {cons:.2g}",
+                              "replay": {"faces": int(len(hull_.simplices)), "observers": nobs, "bad_inside": bad_in, "bad_outside": bad_out}})
     return fails, {"c02_rows": done, "c02_per_class": per, "c02_nonfinite_rows_left_to_C15": nonfinite_rows}
